@@ -180,6 +180,8 @@ def classify_consumer(fi, call, pmap):
             return ("positional", f"appended as the ordered result list: {norm(p)[:80]}", p)
         if cn == "enumerate":
             return ("positional", "enumerated", p)
+    if isinstance(p, ast.Assign) and any(isinstance(t, ast.Attribute) for t in p.targets):
+        return ("returned", f"stored into {norm(p.targets[0])} and consumed through the object", p)
     if isinstance(p, ast.Assign):
         names = [norm(t) for t in p.targets]
         uses = []
